@@ -3,10 +3,18 @@ import EinoV.Oracle.GraphCase
 namespace EinoV.Oracle.C02
 open Lean EinoV
 
-/-- case: {"g": graph case, "input": "x"} -/
+/-- extra case families of this property, by the "kind" field of the case
+    (extended in this file by the families' owners) -/
+def handleKind (kind : String) (_c : Json) : JE Json :=
+  throw s!"unknown case kind {kind}"
+
+/-- case: {"g": graph case, "input": "x"}  (no "kind"), or a case of an extra family -/
 def handle (c : Json) : JE Json := do
-  let g ← J.field c "g"
-  let x ← J.str c "input"
-  GraphCase.outcomeJson g [("in", x)]
+  match c.getObjVal? "kind" with
+  | .ok (.str k) => handleKind k c
+  | _ =>
+    let g ← J.field c "g"
+    let x ← J.str c "input"
+    GraphCase.outcomeJson g [("in", x)]
 
 end EinoV.Oracle.C02
